@@ -34,6 +34,13 @@ class Gen:
     def __init__(self, rng, hist=None):
         self.r = rng
         self.hist = hist if hist is not None else {}
+        self.ml_tokens = []
+        self.comments = []
+        self.kv_paths = []
+        self.meta = {}
+        self.spell = {}
+        self.respelled = False
+        self.inline_nonadjacent = False
 
     def hit(self, k):
         self.hist[k] = self.hist.get(k, 0) + 1
@@ -48,6 +55,7 @@ class Gen:
     def comment(self):
         body = "".join(self.r.choice(["a", " ", "#", "\t", "é", "\"", "'", "=", "[", "😀", "\\", "~"]) for _ in range(self.r.randrange(0, 6)))
         self.hit("comment")
+        self.comments.append("#" + body)
         return "#" + body
 
     def wcn(self):
@@ -161,6 +169,7 @@ class Gen:
                     after_cont = True
                     self.hit("ml:linecont")
             # the body may end in up to two raw quotes: already handled by run counting
+            self.ml_tokens.append(out + body + '"""')
             return out + body + '"""', dec
         # mlliteral
         out = "'''"
@@ -170,6 +179,7 @@ class Gen:
         body = s
         if self.r.random() < 0.3:
             body = body.replace("\n", "\r\n")
+        self.ml_tokens.append(out + body + "'''")
         return out + body + "'''", dec
 
     def key(self, k=None):
@@ -300,43 +310,84 @@ class Gen:
         n = self.r.choice([0, 1, 2, 3])
         tree = {}
         parts = []
+        spell = {}
+        order = []
         for _ in range(n):
-            path = []
             node = tree
             ok = True
             plen = self.r.choice([1, 1, 1, 2, 3])
-            texts = []
-            for j in range(plen):
-                kt, kd = self.key()
-                texts.append(self.ws() + kt + self.ws())
-                path.append(kd)
-            # place into tree if it does not collide
-            for j, kd in enumerate(path[:-1]):
-                if kd not in node:
-                    node[kd] = ("dotted", {})
-                ent = node[kd]
-                if not (isinstance(ent, tuple) and ent[0] == "dotted"):
+            names = [self.r.choice(["a", "b", "k", "x y", "", "1", "é"]) for _ in range(plen)]
+            path = [x.encode() for x in names]
+            created = []
+            for kd in path[:-1]:
+                ent = node.get(kd)
+                if ent is None:
+                    ent = ("dotted", {})
+                    created.append((node, kd, ent))
+                elif not (isinstance(ent, tuple) and ent[0] == "dotted"):
                     ok = False
                     break
                 node = ent[1]
             if not ok or path[-1] in node:
                 continue
+            for (c, kd, ent) in created:
+                c[kd] = ent
             t, v = self.value(depth + 1)
             node[path[-1]] = v
             if plen > 1:
                 self.hit("inline:dotted")
-            parts.append(".".join(texts) + "=" + self.ws() + t + self.ws())
+            ids = [tuple(names[: i + 1]) for i in range(plen)]
+            order.append((0, tuple(path)))
+            parts.append(self.ws() + self.render_path(ids, names, False, spell) + "=" + self.ws() + t + self.ws())
+        if not adjacent_dotted(order):
+            self.inline_nonadjacent = True
         def strip(n):
             return {k: (strip(v[1]) if isinstance(v, tuple) and v[0] == "dotted" else v) for k, v in n.items()}
         if not parts:
             return "{" + self.ws() + "}", {}
         return "{" + ",".join(parts) + "}", strip(tree)
 
+    def render_path(self, abs_ids, path, names_table_last, spell=None):
+        """text of a dotted path (header or key). Segments that name tables are remembered: toml_edit
+        keeps one Key per table entry, so a later occurrence prints with the spelling and inner
+        whitespace of the first one (known finding F15); `self.respelled` records when that matters."""
+        if spell is None:
+            spell = self.spell
+        parts = []
+        n = len(path)
+        for i, seg in enumerate(path):
+            ap = abs_ids[i]
+            is_tbl = i < n - 1 or names_table_last
+            rec = spell.get(ap) if is_tbl else None
+            if rec is not None and self.r.random() < 0.9:
+                kt, pre, post = rec[0], "", ""
+            else:
+                kt = self.key(seg)[0]
+                pre = self.ws() if self.r.random() < 0.15 else ""
+                post = self.ws() if self.r.random() < 0.15 else ""
+            if is_tbl:
+                if rec is None:
+                    spell[ap] = (kt, pre, post)
+                else:
+                    free_pre = (i == 0 and i < n - 1)
+                    if kt != rec[0] or rec[1] or rec[2] or post or (pre and not free_pre):
+                        self.respelled = True
+            parts.append(pre + kt + post)
+        return ".".join(parts)
+
     # ---------------- documents
     def document(self):
         """(text, plain tree dict) of a valid document"""
         r = self.r
         out = ""
+        self.ml_tokens = []
+        self.comments = []
+        self.kv_paths = []
+        self.spell = {}
+        self.respelled = False
+        self.inline_nonadjacent = False
+        sect_no = [0]
+        cur_abs = [()]
         if r.random() < 0.05:
             out += "\ufeff"
             self.hit("bom")
@@ -353,11 +404,8 @@ class Gen:
             """one key/value line into dict `node`; may use a dotted key"""
             nonlocal out
             plen = r.choice([1, 1, 1, 1, 2, 3])
-            path, texts = [], []
-            for _ in range(plen):
-                kt, kd = self.key(r.choice(KEYS))
-                path.append(kd)
-                texts.append(kt)
+            names = [r.choice(KEYS) for _ in range(plen)]
+            path = [n.encode() for n in names]
             cur = node
             created = []
             for kd in path[:-1]:
@@ -379,7 +427,9 @@ class Gen:
             cur[path[-1]] = v
             if plen > 1:
                 self.hit("doc:dottedkey")
-            out += self.ws() + (self.ws() + "." + self.ws()).join(texts) + self.ws() + "=" + self.ws() + t + self.ws()
+            self.kv_paths.append((sect_no[0], tuple(path)))
+            ids = [cur_abs[0] + tuple(names[: i + 1]) for i in range(plen)]
+            out += self.render_path(ids, names, False) + "=" + self.ws() + t + self.ws()
             if r.random() < 0.3:
                 out += self.comment()
             out += self.nl()
@@ -398,17 +448,22 @@ class Gen:
             # walk / create
             cur = tree
             ok = True
+            ids = []
+            absp = ()
             for kd in [p.encode() for p in path[:-1]]:
                 ent = cur.get(kd)
                 if ent is None:
                     ent = ("implicit", {})
                     cur[kd] = ent
+                absp = absp + (kd.decode(),)
+                ids.append(absp)
                 if isinstance(ent, tuple) and ent[0] in ("implicit", "explicit"):
                     cur = ent[1]
                 elif isinstance(ent, tuple) and ent[0] == "dotted":
                     cur = ent[1]
                 elif isinstance(ent, tuple) and ent[0] == "aot":
                     cur = ent[1][-1]
+                    absp = absp + ("#%d" % (len(ent[1]) - 1),)
                 else:
                     ok = False
                     break
@@ -416,6 +471,8 @@ class Gen:
                 continue
             last = path[-1].encode()
             ent = cur.get(last)
+            absp = absp + (path[-1],)
+            ids.append(absp)
             if is_aot:
                 if ent is None:
                     ent = ("aot", [])
@@ -424,8 +481,9 @@ class Gen:
                     continue
                 node = {}
                 ent[1].append(node)
+                absp = absp + ("#%d" % (len(ent[1]) - 1),)
                 self.hit("doc:aot")
-                hdr = "[[" + self.ws() + (self.ws() + "." + self.ws()).join(self.key(p)[0] for p in path) + self.ws() + "]]"
+                hdr = "[[" + self.render_path(ids, path, True) + "]]"
             else:
                 if ent is None:
                     node = {}
@@ -437,8 +495,10 @@ class Gen:
                 else:
                     continue
                 self.hit("doc:header")
-                hdr = "[" + self.ws() + (self.ws() + "." + self.ws()).join(self.key(p)[0] for p in path) + self.ws() + "]"
+                hdr = "[" + self.render_path(ids, path, True) + "]"
+            cur_abs[0] = absp
             out += self.ws() + hdr + self.ws() + (self.comment() if r.random() < 0.2 else "") + self.nl()
+            sect_no[0] += 1
             sd = set()
             out += blank()
             for _ in range(r.choice([0, 1, 2, 3])):
@@ -449,6 +509,9 @@ class Gen:
             if out.endswith("\r"):
                 out = out[:-1]
             self.hit("doc:nofinalnl")
+
+        self.meta = {"ml": list(self.ml_tokens), "comments": [c for c in self.comments if c in out], "adjacent": adjacent_dotted(self.kv_paths) and not self.inline_nonadjacent,
+                     "respelled": self.respelled, "text": out}
 
         def strip(n):
             res = {}
@@ -468,6 +531,51 @@ class Gen:
                 return [stripv(x) for x in v]
             return v
         return out, strip(tree)
+
+
+def adjacent_dotted(kv_paths):
+    """keys sharing a dotted prefix are adjacent within their section (so printing keeps the source order)"""
+    by_sect = {}
+    for sno, path in kv_paths:
+        by_sect.setdefault(sno, []).append(path)
+    for paths in by_sect.values():
+        for plen in range(1, 4):
+            seen_closed = set()
+            prev = None
+            for p in paths:
+                pre = p[:plen] if len(p) > plen else None
+                if pre != prev:
+                    if prev is not None:
+                        seen_closed.add(prev)
+                    if pre is not None and pre in seen_closed:
+                        return False
+                prev = pre
+    # a plain key following dotted keys of the same table, then more of the same dotted prefix, is covered above
+    return True
+
+
+def normalize(text: str, ml_tokens):
+    """the three normalisations of C03: drop a leading BOM; CRLF -> LF outside multi-line string
+    bodies; add a newline if the last key/value or header line has none"""
+    if text.startswith("\ufeff"):
+        text = text[1:]
+    out = []
+    pos = 0
+    for tok in ml_tokens:
+        i = text.find(tok, pos)
+        if i < 0:
+            continue
+        out.append(text[pos:i].replace("\r", ""))
+        out.append(tok)
+        pos = i + len(tok)
+    out.append(text[pos:].replace("\r", ""))
+    res = "".join(out)
+    if res and not res.endswith("\n"):
+        last = res.split("\n")[-1]
+        st = last.strip(" \t")
+        if st and not st.startswith("#"):
+            res += "\n"
+    return res
 
 
 def mutate(rng, data: bytes, tokens=None):
